@@ -63,6 +63,12 @@ def rs(s: dict, pk: Picker, depth: int) -> dict:
     desc = {"description": s["desc"]} if s.get("desc") else {}
     if k == "ref":
         r = {"$ref": "#/components/schemas/" + s["name"]}
+        if nullable and s.get("typed_wrapper"):
+            # the common 3.0 idiom {type: object, nullable: true, allOf: [$ref]} and its mechanical 3.1 type-list rewrite
+            c = pk.pick(2, depth)
+            if c == 0:
+                return {"type": "object", "allOf": [r], "nullable": True, **desc}
+            return {"type": ["object", "null"], "allOf": [r], **desc}
         if nullable:
             c = pk.pick(3, depth)
             if c == 0:
@@ -140,6 +146,32 @@ def cases(draw, tier):
     for op in ir["ops"]:
         for p in op["params"]:
             p["level"] = "op"
+    comps = docs.comp_map(ir)
+
+    def mark(sc):
+        if sc.get("k") == "ref" and sc.get("nullable") and comps.get(sc["name"], {}).get("k") == "object" and draw(st.booleans()):
+            sc["typed_wrapper"] = True
+        for key in ("items", "addl"):
+            if isinstance(sc.get(key), dict):
+                mark(sc[key])
+        for m in sc.get("members", []):
+            mark(m)
+        for pp in sc.get("props", []):
+            mark(pp[1])
+
+    for _, sc in ir["schemas"]:
+        mark(sc)
+    # parameters / responses shared by every operation through components (their schema objects are parsed once per use)
+    refable = [n for n, sc in ir["schemas"] if sc["k"] == "enum"]
+    ir["shared_params"] = []
+    if draw(st.booleans()):
+        for i in range(draw(st.integers(1, 2))):
+            sch = {"k": "ref", "name": draw(st.sampled_from(refable))} if refable and draw(st.booleans()) else \
+                {"k": draw(st.sampled_from(["str", "int", "date"])), "nullable": draw(st.booleans())}
+            ir["shared_params"].append({"name": f"zzShared{i}", "in": "query", "required": False, "schema": sch})
+    objs = [n for n, sc in ir["schemas"] if sc["k"] == "object"]
+    ir["shared_response"] = {"k": "ref", "name": draw(st.sampled_from(objs)), "nullable": draw(st.booleans())} if objs and draw(st.booleans()) else None
+    ir["shared_level"] = draw(st.sampled_from(["components", "path_item"]))
     bits = draw(st.lists(st.integers(0, 11), min_size=4, max_size=24))
     return {"ir": ir, "bits": bits, "yaml": draw(st.integers(0, 2)) == 0, "url": draw(st.integers(0, 3)) == 0,
             "cfg": {"literal_enums": draw(st.booleans())}}
@@ -284,6 +316,13 @@ def render_family(ir, bits, fam):
 def _render_with(ir, pk):
     out = {"openapi": "3.1.0", "info": {"title": ir.get("title", "Verif API"), "version": "1.0.0"}, "paths": {}}
     comps = {n: rs(s, pk, 0) for n, s in ir["schemas"]}
+    shared_p = {}
+    for p in ir.get("shared_params", []):
+        shared_p[p["name"]] = {"name": p["name"], "in": p["in"], "schema": rs(p["schema"], pk, 1)}
+    shared_r = None
+    if ir.get("shared_response"):
+        shared_r = {"description": "shared", "content": {"application/json": {"schema": rs(ir["shared_response"], pk, 1)}}}
+    second_methods = {}
     for op in ir["ops"]:
         o = {}
         if op.get("opid") is not None:
@@ -306,8 +345,30 @@ def _render_with(ir, pk):
                 resp[str(status)] = {"description": "none"}
             else:
                 resp[str(status)] = {"description": "resp", "content": {r[0]: {"schema": rs(r[1], pk, 1)}}}
+        if shared_r is not None and "418" not in resp:
+            resp["418"] = {"$ref": "#/components/responses/ZzSharedResp"}
         o["responses"] = resp
-        out["paths"].setdefault(op["path"], {})[op["method"]] = o
+        item = out["paths"].setdefault(op["path"], {})
+        item[op["method"]] = o
+        if shared_p:
+            if ir.get("shared_level") == "components":
+                o.setdefault("parameters", []).extend({"$ref": "#/components/parameters/" + k} for k in shared_p)
+            else:
+                # a path-item-level parameter shared by two operations of one path item
+                item["parameters"] = [copy.deepcopy(v) for v in shared_p.values()]
+                m2 = next(m for m in ("get", "put", "post", "delete", "patch", "head", "options", "trace") if m not in item)
+                twin = {"operationId": (op.get("opid") or "zzop") + "Twin", "responses": {"200": {"description": "ok"}}}
+                pathp = [copy.deepcopy(q) for q in o.get("parameters", []) if q.get("in") == "path"]
+                if pathp:
+                    twin["parameters"] = pathp
+                item[m2] = twin
+    out_comps = {}
     if comps:
-        out["components"] = {"schemas": comps}
+        out_comps["schemas"] = comps
+    if shared_p and ir.get("shared_level") == "components":
+        out_comps["parameters"] = shared_p
+    if shared_r is not None:
+        out_comps["responses"] = {"ZzSharedResp": shared_r}
+    if out_comps:
+        out["components"] = out_comps
     return out, pk
